@@ -21,6 +21,7 @@ ASSUMPTIONS = ["termination and in-bounds are THEOREMS only for the modelled ker
                "out-of-bounds reads in interpreted mode wrap silently: they are caught indirectly, by the other properties' "
                "exact correspondence with models in which an out-of-range read returns a default value",
                "compiled (JIT) execution is out of scope (C07 not applicable); NUMBA_BOUNDSCHECK is therefore not used"]
+MUST_OK = {"add_pits_dup_use", "add_pits_dup_xy_use"}       # valid arguments: any exception is a failure
 MUTATORS = {"add_pits", "repair_loops", "order_cells", "set_transform"}
 # operations whose documented domain includes networks with loops (everything that walks a path needs a loop-free one)
 LOOP_OK = {"order_walk", "order_sort", "rank", "isvalid", "idxs_pit", "nnodes", "n_upstream", "idxs_us_main", "ncells", "idxs_seq", "area",
@@ -125,6 +126,12 @@ def _build_ops(nr, nc, ds, rng):
         ("inflow", lambda f: f.inflow_idxs(I["mask"])), ("outflow", lambda f: f.outflow_idxs(I["mask"])), ("inflow_full", lambda f: f.inflow_idxs(I["mask_full"])),
         ("interbasin", lambda f: f.interbasin_mask(I["mask"])), ("interbasin_empty", lambda f: f.interbasin_mask(I["mask_empty"])),
         ("classify_estuaries", lambda f: f.classify_estuaries(I["elv"], I["full"])),
+        # round-2 seeds: unit conversions on a memoising object; a mutator called with repeated locations must leave a usable object
+        ("ucat_area_ha", lambda f: f.ucat_area(f.ucat_outlets(cs), unit="ha")), ("ucat_area_km2", lambda f: f.ucat_area(f.ucat_outlets(cs), unit="km2")),
+        ("uparea_ha", lambda f: f.upstream_area("ha")), ("uparea_km2_memo", lambda f: f.upstream_area("km2")),
+        ("subgrid_rivlen_m", lambda f: f.subgrid_rivlen(f.ucat_outlets(cs), unit="m")),
+        ("add_pits_dup_use", lambda f: (f.add_pits(idxs=np.array([I["outl"][0], I["outl"][0]])), f.upstream_area(), f.basins(), f.rank, f.stream_order())),
+        ("add_pits_dup_xy_use", lambda f: (f.add_pits(xy=(np.array([I["xs"][0], I["xs"][0]]), np.array([I["ys"][0], I["ys"][0]]))), f.upstream_area(), f.basins())),
         ("add_pits", lambda f: f.add_pits(idxs=I["outl"][:1])), ("add_pits_xy", lambda f: f.add_pits(xy=(I["xs"][:1], I["ys"][:1]))),
         ("repair_loops", lambda f: f.repair_loops()),
         ("set_transform", lambda f: f.set_transform(f.transform, latlon=True)),
@@ -207,7 +214,7 @@ def impl(case):
         dt = time.time() - t0
         if st == "ok":
             nok += 1
-        elif st in ("ValueError", "IndexError"):
+        elif st in ("ValueError", "IndexError") and name not in MUST_OK:
             pass
         elif st == "timeout":
             bad.append((f"{name}:timeout", f"{name} did not return within {limit} s on a {nr}x{nc} raster"))
